@@ -128,7 +128,7 @@ def run(tier):
     hdr = ("From Coq Require Import List String.\nFrom LV Require Import Norm.Cfg.\nImport ListNotations.\n"
            "Definition enc (l : list (nat * list nat)) : list nat := List.length l :: flat_map (fun p => fst p :: List.length (snd p) :: snd p) l.\n"
            "Local Open Scope string_scope.\n")
-    out = vlib.coq_eval_value("c15", hdr, "flat_map enc [%s]" % "; ".join(terms), timeout=900)
+    out = vlib.coq_eval_value("c15", hdr, "flat_map enc [%s]" % "; ".join(terms), timeout=2400)
     nums = [int(x) for x in re.findall(r"\d+", out.split(":")[0])]
     survs, pos = [], 0
     while pos < len(nums) and len(survs) < len(terms):
